@@ -111,12 +111,16 @@ CLAIMED["C05"] = dict(
    ref="4 C05")
 CLAIMED["C07"] = dict(
    text="Executable Lean model of the nine DP kernels, both Hirschberg controllers, profiles and do_align over a generic score carrier; the Float32 instance is bit-identical to the "
-        "C code on every generated rectangle (unit correspondence). Theorems: aln_runner = aln_runner_serial whenever every meetup returns a real transition (and a proved "
-        "counterexample state where the missing `return` matters), and H1: for any kernels passing the executable meetup contract the path is well shaped (`pathOK`), hence valid "
-        "columns. Optimality itself (H3-H5) is NOT proved: it is checked by an independent full-matrix reference DP that certifies a margin robust to every reading of the "
-        "terminal-gap costs; only certified cases are compared (seq-seq, seq-profile, profile-profile via groups of identical copies, lengths on both sides of 500).",
-   note="PARTIAL: optimality is oracle-checked, not proved. Known finding C07-terminal-gap-split (inconsistent terminal-gap objective). A-float.",
-   technique="Lean 4 proofs about the Hirschberg controller over abstract kernels; bit-exact Float32 model correspondence; independent-DP certified oracle",
+        "C code on every generated rectangle (unit correspondence). Theorems: (structure) aln_runner = aln_runner_serial, H1 path shape for any kernels passing the executable meetup "
+        "contract; (scores, sequence-sequence kernels on the exact carrier) forward/backward kernel cells = maxima over partial alignments of explicitly defined readings "
+        "(C07_ssForward_spec / C07_ssBackward_spec), meetup = first argmax over cuts (C07_ssMeet_*), every level's reading lies within proved slacks of the reference score "
+        "(C07_level_bounds, C07_sub_level_bounds; the originally assumed lower bound is refuted by C07_claimed_lower_bound_fails), and C07_hirschberg_seqseq_opt / C07_alnRun_opt: "
+        "if P beats every other alignment by gpo*nterm(P) + max(0,tgpe-gpe,tgpe-gpo) + max(0,gpe-tgpe) + len_b/2000, the controller (serial and parallel entry) returns exactly P. "
+        "Sequence-profile and profile-profile kernels: optimality is checked by the independent full-matrix reference DP with the same proved margin on groups of identical copies.",
+   note="PARTIAL: optimality proved for the seq-seq kernels on the exact carrier; profile kernels and the binary32 instance are tied by bit-exact correspondence and the certified "
+        "oracle (A-float). Known finding C07-terminal-gap-split (inconsistent terminal-gap objective; the proved margin quantifies it).",
+   technique="Lean 4 proofs: DP kernel specifications, cut decomposition, per-level reading bounds, Hirschberg optimality under a margin; bit-exact Float32 model correspondence; "
+             "independent-DP certified oracle",
    ref="4 C07")
 CLAIMED["C08"] = dict(
    text="Lean theorems: every admissible default parameter set satisfies Φ (regenerated tables, `decide`); under Φ the gap-free diagonal of (s,s) strictly beats every other valid "
